@@ -4,6 +4,7 @@ import (
 	cryptorand "crypto/rand"
 	"fmt"
 	"runtime"
+	"strings"
 	"testing"
 	"time"
 
@@ -37,6 +38,13 @@ type C16Spec struct {
 	LibSeed   uint64   `json:"lib_seed"`
 	Schedule  []uint16 `json:"schedule"`
 	Buggify   []string `json:"buggify"`
+	// FreeRun: stress class with real parallelism and no scheduler; the consumer is stalled (real
+	// sleep of StallMs at its "before stop" hook site) so that workers fill the results buffer.
+	// Reaches check-then-act windows between two library statements that have no yield point
+	// between them; not replayable exactly.
+	FreeRun bool `json:"free_run"`
+	StallMs int  `json:"stall_ms"`
+	Rounds  int  `json:"rounds"`
 }
 
 func drawC16(rt *rapid.T) C16Spec {
@@ -60,6 +68,13 @@ func drawC16(rt *rapid.T) C16Spec {
 	}
 	if rapid.Bool().Draw(rt, "buggify") {
 		s.Buggify = []string{"safeprime.Generate:extra-stop-check"}
+	}
+	if rapid.IntRange(0, 5).Draw(rt, "freerun") == 0 {
+		s.FreeRun = true
+		s.Procs = rapid.SampledFrom([]int{4, 8, 16}).Draw(rt, "freeprocs")
+		s.StallMs = rapid.SampledFrom([]int{2, 5, 10, 20, 40}).Draw(rt, "stall")
+		s.Rounds = rapid.IntRange(10, 40).Draw(rt, "rounds")
+		s.Bits, s.Attrs, s.FindPrime, s.Schedule = []int{128}, []int{2}, 0, nil
 	}
 	return s
 }
@@ -147,6 +162,10 @@ type c16Out struct {
 func execC16(r *kernel.Run, s C16Spec) {
 	old := runtime.GOMAXPROCS(s.Procs)
 	defer runtime.GOMAXPROCS(old)
+	if s.FreeRun {
+		execC16Free(r, s)
+		return
+	}
 	kernel.SeedLibrary(r.T, s.LibSeed)
 	buggify := map[string]bool{}
 	for _, b := range s.Buggify {
@@ -248,3 +267,80 @@ func TestC16(t *testing.T) {
 }
 
 var _ = rapid.Bool
+
+func libGoroutines() int {
+	buf := make([]byte, 1<<20)
+	n := runtime.Stack(buf, true)
+	return strings.Count(string(buf[:n]), "safeprime.GenerateConcurrent.func")
+}
+
+// execC16Free is the free-running stress class: real goroutines, real parallelism, the consumer
+// stalled before it stops the workers.
+func execC16Free(r *kernel.Run, s C16Spec) {
+	kernel.SeedLibrary(r.T, s.LibSeed)
+	before := libGoroutines()
+	stall := time.Duration(s.StallMs) * time.Millisecond
+	gabi.VerifInstallHooks(gabi.VerifHooks{Yield: func(site string) {
+		if site == "generateSafePrimePair:before-close-stop" || site == "findSafePrime:before-stop" {
+			time.Sleep(stall) // slow consumer: workers keep producing into the results buffer
+		}
+	}})
+	defer gabi.VerifInstallHooks(gabi.VerifHooks{})
+	r.Fault("stalled-consumer")
+	base := gabikeys.BaseParameters{LePrime: 120, Lh: 256, Lm: 256, Ln: 128, Lstatzk: 80}
+	params := &gabikeys.SystemParameters{BaseParameters: base, DerivedParameters: gabikeys.MakeDerivedParameters(base)}
+	for i := 0; i < s.Rounds; i++ {
+		sk, pk, err := gabikeys.GenerateKeyPair(params, 2, uint(i), time.Unix(4000000000, 0))
+		r.Eval(1)
+		if err != nil {
+			r.Violate("C16:generation-failed", nil, "free-running round %d: %v", i, err)
+			return
+		}
+		if why := wellFormed(sk, pk, 128, 2); why != "" {
+			r.Violate("C16:malformed-key", map[string]any{"why": why}, "free-running round %d: %s", i, why)
+		}
+	}
+	// the worker protocol itself under a stalled consumer, with tiny primes so that the results
+	// buffer fills within the stall and many workers reach the send at the same moment
+	for i := 0; i < s.Rounds*8; i++ {
+		stop := make(chan struct{})
+		ints, errs := safeprime.GenerateConcurrent(16+(i%3)*4, stop)
+		for k := 0; k < 1+i%3; k++ {
+			select {
+			case x := <-ints:
+				if !safeprime.ProbablySafePrime(x, 20) {
+					r.Violate("C16:generator-returned-non-safe-prime", nil, "GenerateConcurrent delivered %v", x)
+				}
+			case err := <-errs:
+				r.Violate("C16:generation-failed", nil, "GenerateConcurrent: %v", err)
+			}
+		}
+		deadline := time.Now().Add(stall)
+		for len(ints) < cap(ints)-1 && time.Now().Before(deadline) {
+			runtime.Gosched()
+		}
+		if i%2 == 0 {
+			close(stop)
+		} else {
+			stop <- struct{}{}
+		}
+		r.Eval(1)
+	}
+	// every worker and watcher must be gone shortly after the last call returned
+	left := 0
+	for wait := 0; wait < 240; wait++ {
+		if left = libGoroutines() - before; left <= 0 {
+			break
+		}
+		time.Sleep(50 * time.Millisecond)
+	}
+	r.Logf("free-running rounds=%d procs=%d", s.Rounds, s.Procs)
+	r.Probe("free-running-rounds")
+	r.Distinct(fmt.Sprintf("free-run procs=%d stall=%d", s.Procs, s.StallMs))
+	if left > 0 {
+		r.Violate("C16:leak:free-running", map[string]any{"site": "free-running"}, "%d goroutines of the safe prime generator are still alive 12 s after %d generations returned", left, s.Rounds)
+	} else {
+		r.Probe("all-goroutines-exited")
+	}
+	r.Sample(map[string]any{"free_run": true, "rounds": s.Rounds, "procs": s.Procs, "stall_ms": s.StallMs})
+}
